@@ -197,7 +197,7 @@ func runPipe(c *pipeCase) string {
 		}
 		obs += " oracle_reader=" + rd
 		leak := "ok"
-		deadline := time.Now().Add(500 * time.Millisecond)
+		deadline := time.Now().Add(5 * time.Second) // a goroutine that is still winding down is not a leak: only one that never ends is
 		for runtime.NumGoroutine() > g0 && time.Now().Before(deadline) {
 			time.Sleep(2 * time.Millisecond)
 		}
